@@ -31,7 +31,7 @@ def workdir(name):
 
 
 def run_tlc(module, cfg_text, wd, workers=16, extra_modules=(), env=None, simulate=None,
-            depth=None, dump=None, coverage=False, timeout=3600, seed=None, deadlock=False,
+            depth=None, dump=None, coverage=False, timeout=900, seed=None, deadlock=False,
             javaopts=None, gen_files=None, heap="4g"):
     """Run TLC on specs/<module>.tla with the given cfg text inside work dir wd.
     The spec files are copied (all of specs/*.tla) so generated modules can sit beside them."""
